@@ -88,7 +88,10 @@ def specCheck (define : Bool) (g : GraphVal) (w : Wiring) (iex : List (Str × Li
         match real.find? fun (n, k) => !(implied.any (·.name == n)) && !(k == .instance && deps.any fun d => compatSpec d n) with
         | some (n, k) => some s!"import {showStr n}:{k.tag} is neither implied nor a dependency interface; implied={showNK (implied.map fun i => (i.name, i.kind))} deps={deps.map showStr}"
         | none =>
-          match deps.find? fun d => !(real.any fun (n, _) => compatSpec d n) with
+          -- a dependency interface is imported under its own name (or a compatible version of
+          -- it), or is provided by an explicit import of that interface under another name
+          match deps.find? fun d => !(real.any fun (n, _) => compatSpec d n) &&
+              !((ifaceImports g).any fun m => compatSpec m.2 d && real.any fun (n, _) => n == m.1) with
           | some d => some s!"dependency interface {showStr d} is not imported; imports impl={showNK real}"
           | none =>
             -- an implied instance import offers what its members need
@@ -110,6 +113,16 @@ def judgeIfc (define : Bool) (g : GraphVal) (q : List (Str × Kind × Option Nat
     if qreal != qspec then some s!"imports() impl={showNK qreal} spec={showNK qspec}"
     else match r with
       | .ok w => specCheck define g w iex
+      | .merge nm first second =>
+        -- whatever the type reason, the error names the import, the first instantiation that
+        -- leaves an import of exactly that name unsatisfied, and a later (or the same) one
+        let leaving := g.nodes.filter fun n => (reqsOfNode g n).any (·.name == nm)
+        match leaving.head? with
+        | none => some s!"merge conflict names import {showStr nm} that no instantiation leaves unsatisfied"
+        | some f =>
+          if f.id != first then some s!"merge conflict on {showStr nm}: first={first}, but the first instantiation leaving it unsatisfied is {f.id}"
+          else if !(leaving.any (·.id == second)) then some s!"merge conflict on {showStr nm}: second={second} does not leave it unsatisfied"
+          else none
       | _ => none
   match spec with
   | some d => "SPEC\t" ++ d
